@@ -574,6 +574,13 @@ pub struct DevCfg {
     /// initial data rate override
     pub dr: Option<u8>,
     pub adr: Option<bool>,
+    /// further session fields patched through serde: owed ACK, last uplink confirmed, pending MAC answers
+    #[serde(default)]
+    pub owed_ack: Option<bool>,
+    #[serde(default)]
+    pub last_confirmed: Option<bool>,
+    #[serde(default)]
+    pub pending: Option<Vec<u8>>,
 }
 
 impl DevCfg {
@@ -590,6 +597,9 @@ impl DevCfg {
             bias: None,
             dr: None,
             adr: None,
+            owed_ack: None,
+            last_confirmed: None,
+            pending: None,
         }
     }
     pub fn otaa(region: &str) -> DevCfg {
@@ -635,6 +645,27 @@ pub fn make_region(cfg: &DevCfg) -> region::Configuration {
 }
 
 /// A session with chosen counters, obtained through the public serde interface.
+pub fn patched_session_cfg(cfg: &DevCfg) -> lorawan_device::mac::Session {
+    let s = patched_session(cfg.fcnt_up, cfg.fcnt_down, cfg.adr_ack_cnt);
+    if cfg.owed_ack.is_none() && cfg.last_confirmed.is_none() && cfg.pending.is_none() {
+        return s;
+    }
+    let mut v = serde_json::to_value(&s).expect("session serialises");
+    if let Some(o) = cfg.owed_ack {
+        v["uplink"]["confirmed"] = serde_json::json!(o);
+    }
+    if let Some(c) = cfg.last_confirmed {
+        v["confirmed"] = serde_json::json!(c);
+    }
+    if let Some(p) = &cfg.pending {
+        let mut data = [0u8; 15];
+        data[..p.len()].copy_from_slice(p);
+        v["uplink"]["pending_len"] = serde_json::json!(p.len());
+        v["uplink"]["pending_data"] = serde_json::json!(data);
+    }
+    serde_json::from_value(v).expect("patched session deserialises")
+}
+
 pub fn patched_session(fcnt_up: Option<u32>, fcnt_down: Option<Option<u32>>, adr_ack_cnt: Option<u32>) -> lorawan_device::mac::Session {
     let s = lorawan_device::mac::Session::new(NwkSKey::from(NWKSKEY), AppSKey::from(APPSKEY), DevAddr::from_value(DEVADDR));
     let mut v = serde_json::to_value(&s).expect("session serialises");
@@ -667,8 +698,14 @@ impl<const PW: u8, const GAIN: i8> NbCore<PW, GAIN> {
             let r = dev.join(JoinMode::ABP { nwkskey: NwkSKey::from(NWKSKEY), appskey: AppSKey::from(APPSKEY), devaddr: DevAddr::from_value(DEVADDR) });
             assert!(matches!(r, Ok(Response::JoinSuccess)));
             net = Net::abp();
-            if cfg.fcnt_up.is_some() || cfg.fcnt_down.is_some() || cfg.adr_ack_cnt.is_some() {
-                dev.set_session(patched_session(cfg.fcnt_up, cfg.fcnt_down, cfg.adr_ack_cnt));
+            if cfg.fcnt_up.is_some()
+                || cfg.fcnt_down.is_some()
+                || cfg.adr_ack_cnt.is_some()
+                || cfg.owed_ack.is_some()
+                || cfg.last_confirmed.is_some()
+                || cfg.pending.is_some()
+            {
+                dev.set_session(patched_session_cfg(cfg));
                 if let Some(fd) = cfg.fcnt_down {
                     net.ref_last = fd;
                 }
